@@ -119,14 +119,19 @@ def run_case(case):
     q = np.array(case["charges"], dtype=float)
     viols, errs = [], {}
     rs = cm.rshells(shells)
+    nk = len(pts) + sum(len(s_["e"]) for s_ in shells)
+    rkind = cm.REPS[nk % 11 % 6]  # representation / dtype of the array arguments; float32 is outside the documented domain (dtype int/float)
+    if rkind == "int" and np.abs(pts).max() > 1e6:
+        rkind = "c"
+    pts = cm.rep_values(pts, rkind)  # integer-valued / float32-representable coordinates; charges stay fractional
     ref = gto.point_charge(rs, pts, q)  # (n, n, N)
     dg = np.abs(np.einsum("iin->in", ref))
     scale = np.sqrt(dg[:, None, :] * dg[None, :, :])
-    rkind = cm.REPS[(len(pts) + sum(len(s_["e"]) for s_ in shells)) % len(cm.REPS)]  # in-memory representation of the array arguments
-    V = cm.call(point_charge_integral, cm.build(shells), cm.rep(pts, rkind), cm.rep(q, rkind))
+    qk = rkind if rkind not in ("int", "f32") else "c"
+    V = cm.call(point_charge_integral, cm.build(shells), cm.rep_typed(pts, rkind), cm.rep(q, qk))
     cm.compare(V, ref, TOL, "point_charge_integral", "point_charge", viols, errs, scale=scale, ls=cm.ls_of(shells))
     evals = 1
-    N = cm.call(nuclear_electron_attraction_integral, cm.build(shells), cm.rep(pts, rkind), cm.rep(q, rkind))
+    N = cm.call(nuclear_electron_attraction_integral, cm.build(shells), cm.rep_typed(pts, rkind), cm.rep(q, qk))
     nref = ref.sum(axis=2)
     nscale = np.abs(ref).sum(axis=2)
     # the property's yardstick for the matrix: sum over charges of the per-charge scales
